@@ -38,14 +38,17 @@ PointSets ==
       [] OTHER -> {[i \in 1..N |-> i - 1], [i \in 1..N |-> (i * i) % 5]}
 
 KernelNames == {"lin", "lin1", "mix"}
-MetricNames == {"abs", "disc"}
+MetricNames == IF N <= 3 THEN {"abs", "disc", "sq"} ELSE {"abs", "disc"}   \* "sq": a convex function of the distance, NOT a metric
+TrueMetrics == {"abs", "disc"}
 Kern(nm, p) == Strict([i \in 1..N |-> Strict([j \in 1..N |->
     CASE nm = "lin"  -> p[i] * p[j]
       [] nm = "lin1" -> p[i] * p[j] + (IF i = j THEN 1 ELSE 0)
       [] nm = "mix"  -> p[i] * p[j] - (IF i = j /\ p[i] % 2 = 1 THEN 2 ELSE 0)])])
 Metr(nm, p) == Strict([i \in 1..N |-> Strict([j \in 1..N |->
     CASE nm = "abs"  -> AbsI(p[i] - p[j])
-      [] nm = "disc" -> IF i = j THEN 0 ELSE 1])])
+      [] nm = "disc" -> IF i = j THEN 0 ELSE 1
+      [] nm = "sq"   -> LET dd == AbsI(p[i] - p[j]) IN        \* 0,1,2,5: grows faster than a metric may (5 > 1 + 2)
+                        IF dd <= 2 THEN dd ELSE 5])])
 
 (* Kantorovich potentials: phi[1] = 0, phi 1-Lipschitz w.r.t. the integer metric.  The feasible polyhedron is   *)
 (* integral (difference constraints), so an integral maximiser exists; |phi_i| <= d(1,i).                        *)
@@ -54,7 +57,14 @@ Pots(D) == {phi \in [1..N -> (-Diam(D))..Diam(D)] :
                 phi[1] = 0 /\ \A i \in 1..N, j \in 1..N : phi[i] - phi[j] <= D[i][j]}
 Perms(n) == {f \in [1..n -> 1..n] : \A i, j \in 1..n : f[i] = f[j] => i = j}
 AllPts == {[i \in 1..N |-> p[sg[i]]] : p \in PointSets, sg \in Perms(N)}
-PotTable == [p \in AllPts |-> [nm \in MetricNames |-> Pots(Metr(nm, p))]]        \* constant: evaluated once
+PotTable == [p \in AllPts |-> [nm \in TrueMetrics |-> Pots(Metr(nm, p))]]        \* constant: evaluated once
+(* A cost that is not a metric (a named metric such as the cosine distance is not one either; here: squared distances): *)
+(* general Kantorovich dual  max SUM u_i p_i + SUM v_j q_j  s.t. u_i + v_j <= c_ij.  The dual polyhedron is integral for  *)
+(* integer costs; with full supports an optimal vertex has v = the c-transform of u and |u_i - u_1| <= max c.            *)
+MinOver(S) == CHOOSE m \in S : \A s \in S : m <= s
+GenPots(C) == {[u |-> u, v |-> [j \in 1..N |-> MinOver({C[i][j] - u[i] : i \in 1..N})]] :
+                  u \in {w \in [1..N -> (-Diam(C))..Diam(C)] : w[1] = 0}}
+GenTable == [p \in AllPts |-> GenPots(Metr("sq", p))]
 
 --------------------------------------------------------------------------------------------------------------
 (* distances between two dual distributions p, q (sequences 1..N of duals); result [t: dual terms, s: smooth]   *)
@@ -87,6 +97,16 @@ W1(pots, p, q) ==
         z |-> Cardinality(arg) > 1]
 
 --------------------------------------------------------------------------------------------------------------
+OTGen(cands, p, q) ==
+    LET val(c) == RAdd(RSum([i \in 1..N |-> RMul(R(c.u[i]), p[i][1])]), RSum([j \in 1..N |-> RMul(R(c.v[j]), q[j][1])]))
+        der(c) == RAdd(RSum([i \in 1..N |-> RMul(R(c.u[i]), p[i][2])]), RSum([j \in 1..N |-> RMul(R(c.v[j]), q[j][2])]))
+        vals == {val(c) : c \in cands}
+        best == CHOOSE m \in vals : \A v \in vals : RLe(v, m)
+        arg == {c \in cands : val(c) = best}
+        ders == {der(c) : c \in arg}
+    IN [t |-> <<DTId(DV(best, CHOOSE d \in ders : TRUE))>>, s |-> Cardinality(ders) = 1,
+        z |-> Cardinality(ders) > 1]
+
 Eval(m, pt, e) ==
     LET P == Strict([i \in 1..N |-> Strict([k \in 1..K |-> DV(Q(m[i][k], QD), R(e[i][k]))])])
         Pi == Strict([k \in 1..K |-> DScale(Q(1, N), DSum([i \in 1..N |-> P[i][k]]))])
@@ -118,8 +138,7 @@ Eval(m, pt, e) ==
                      f(p, q) == MMDist(A, p, q)
                  IN << Res("mmd_ova", KS[j], OvA(f)), Res("mmd_ovo", KS[j], OvO(f)) >>])
         WW == Flatten([j \in 1..Len(MS) |->
-                 LET pots == PotTable[pt][MS[j]]
-                     f(p, q) == W1(pots, p, q)
+                 LET f(p, q) == IF MS[j] \in TrueMetrics THEN W1(PotTable[pt][MS[j]], p, q) ELSE OTGen(GenTable[pt], p, q)
                  IN << Res("wasserstein_ova", MS[j], OvA(f)), Res("wasserstein_ovo", MS[j], OvO(f)) >>])
     IN FD \o MM \o WW
 
